@@ -15,15 +15,15 @@ var Ladder = []int{0, 1, 511, 512, 513, 4095, 4096, 4097, 65535, 65536, 65537, 1
 
 // JarSpec describes one JAR.
 type JarSpec struct {
-	Sizes     []int  // payload member sizes
-	Mode      string // "jartool" (deflate + data descriptors, like jar(1)), "stored", "deflate"
-	Manifest  string // "main-only" | "sections" (per-file SHA-256-Digest entries) | "lf" (main-only, LF line ends) | "none" | "no-final-blank-line"
-	MetaDir   bool   // META-INF/ directory entry first (with the 0xCAFE extra)
-	ManLast   bool   // manifest is the LAST member instead of the first
-	LongNames bool   // 300-character member names (manifest lines must be wrapped)
-	DirEntry  bool   // a directory entry "pkg/" for the payload
-	OtherMeta bool   // extra files under META-INF/ (services file, a text file, a nested directory)
-	ForeignSig bool  // pre-existing META-INF/OTHER.SF + OTHER.RSA with arbitrary bytes
+	Sizes      []int  // payload member sizes
+	Mode       string // "jartool" (deflate + data descriptors, like jar(1)), "stored", "deflate"
+	Manifest   string // "main-only" | "sections" (per-file SHA-256-Digest entries) | "lf" (main-only, LF line ends) | "none" | "no-final-blank-line"
+	MetaDir    bool   // META-INF/ directory entry first (with the 0xCAFE extra)
+	ManLast    bool   // manifest is the LAST member instead of the first
+	LongNames  bool   // 300-character member names (manifest lines must be wrapped)
+	DirEntry   bool   // a directory entry "pkg/" for the payload
+	OtherMeta  bool   // extra files under META-INF/ (services file, a text file, a nested directory)
+	ForeignSig bool   // pre-existing META-INF/OTHER.SF + OTHER.RSA with arbitrary bytes
 }
 
 func (s JarSpec) Name() string {
